@@ -28,6 +28,8 @@ SCENARIOS = {
     9: "origin sends megabytes then FIN while the client starts reading late with a small buffer (back-pressure before the FIN)",
     10: "origin FIN first, client then keeps sending a little every 0.5 s for longer than the idle period, then FIN",
 }
+SCENARIOS[11] = "client RST while the origin stays open and silent: the proxy must end the tunnel on both sides by itself"
+SCENARIOS[12] = "origin RST while the client stays open and silent: the proxy must end the tunnel on both sides by itself"
 IDLE = 3   # timeouts.idle of the proxies in this monitor: only a tunnel silent in BOTH directions for that long may be reaped
 
 
@@ -104,7 +106,12 @@ class C04Origins:
                     w.write(s2c)
                     await w.drain()
                     await read_until_eof(rec["c2s"])
-                elif scen == 5:
+                elif scen == 11:
+                    w.write(s2c)
+                    await w.drain()
+                    await read_until_eof(rec["c2s"])
+                    await asyncio.sleep(B_CLOSE + 1.5)   # neither answer nor close: ending the tunnel is the proxy's job
+                elif scen in (5, 12):
                     w.write(s2c)
                     await w.drain()
                     while len(rec["c2s"]) < n_c2s:
@@ -293,6 +300,39 @@ async def scenario(out, chain, origins, seed, uid, lk, ck, scen, io_name, n_c2s,
                               {"who": who, "origin_received": len(rec["c2s"]), "expected": len(c2s) + len(sent_after), "client_write_error": broke, "idle_period_s": IDLE})
             elif not obs["origin_saw_eof"]:
                 out.violation("origin does not observe end-of-stream after both directions ended [%s]" % io_name, {"who": who})
+        elif scen in (11, 12):
+            conn.write(c2s)
+            await conn.drain()
+            rec = await origin_rec()
+            if rec is None:
+                out.violation("origin never saw the tunnel: " + who, {"scenario": scen})
+                return None
+            if scen == 11:
+                got_s2c = await conn.read_exact(len(want_s2c), timeout=WATCHDOG) if want_s2c else b""
+                await asyncio.sleep(0.05)
+                t_abort = now()
+                conn.abort()
+            else:
+                # the origin resets after it has our bytes; we neither read on nor close
+                for _ in range(int(WATCHDOG * 100)):
+                    if rec.get("rst_t"):
+                        break
+                    await asyncio.sleep(0.01)
+                t_abort = rec.get("rst_t") or now()
+            await asyncio.sleep(max(0.0, t_abort + B_CLOSE - now()))
+            still = None
+            if lk != "quic":
+                try:
+                    live = await chain.A.api_json("/live")
+                    still = any(int(h["source"].rsplit(":", 1)[1]) == src_port for h in live)
+                except Exception:
+                    still = None
+            obs["tunnel_ended_by_the_proxy"] = (still is False) or lk == "quic"
+            if still:
+                out.violation("after an abort (RST) by one endpoint the tunnel is still live although the other endpoint stayed silent [%s]" % io_name,
+                              {"who": who, "scenario": SCENARIOS[scen], "seconds_after_the_abort": round(now() - t_abort, 1)})
+            elif still is None and lk != "quic":
+                out.inconclusive += 1
         elif scen == 3:
             conn.write(c2s)
             await conn.drain()
@@ -434,10 +474,14 @@ async def main(args):
     plan = []
     uid = args.seed * 1_000_000
     for lk, ck in pairs:
-        scens = [1, 2, 3, 4, 5, 6, 7, 8, 9, 10] if args.thorough else rng.sample([1, 2, 3, 4, 5, 6, 7, 8, 9, 10], 4)
+        scens = [1, 2, 3, 4, 5, 6, 7, 8, 9, 10, 11, 12] if args.thorough else rng.sample([1, 2, 3, 4, 5, 6, 7, 8, 9, 10, 11, 12], 4)
+        if (lk, ck) in (("http", "direct"), ("socks5", "direct"), ("reverse", "direct")):
+            scens = sorted(set(scens) | {11, 12})
         for sc in scens:
             if lk in TLS_LISTENERS and sc in (1, 3, 7, 8, 10):
                 continue  # the python TLS client can not half-close
+            if sc == 12 and ck != "direct":
+                continue  # behind another proxy hop the origin's reset reaches this proxy as that hop's orderly close
             uid += 1
             n = rng.choice([HLEN, HLEN + 1, 5000, 200_000])
             m = rng.choice([0, 1, 5000, 200_000]) if sc != 6 else 4 << 20
@@ -448,6 +492,8 @@ async def main(args):
             if sc == 9:
                 n, m = rng.choice([HLEN, 5000]), 6 << 20
             if sc == 10:
+                n, m = rng.choice([HLEN, 5000]), rng.choice([1, 5000])
+            if sc in (11, 12):
                 n, m = rng.choice([HLEN, 5000]), rng.choice([1, 5000])
             plan.append((uid, lk, ck, sc, n, m))
     results = {}
